@@ -53,6 +53,8 @@ def run(ctx):
     # expression tasks only: two independent tasks writing one location (a function task and a definition
     # on the same target) race by construction and are outside the property
     cases = [mc.gen_history(ctx.rng, ["assign", "mixed", "dag", "frozen", "assign_flat"][i % 5], nofun=True) for i in range(ctx.pick(200, 3000))]
+    # key TYPES (numpy integers, IntEnum members, tuples, floats, None, bool, big / negative ints) and keys needing escapes
+    cases += [mc.gen_history(ctx.rng, "assign", nofun=True, keys=["exotic", "exotic", "strings"][i % 3]) for i in range(ctx.pick(60, 900))]
     cases += C13.gen_cases(ctx, ctx.pick(40, 600)) + [mc.chain_case(ctx.pick(300, 2000))]
     configs = [("compiled", s) for s in range(ctx.pick(3, 12))] + [("pure", s) for s in range(ctx.pick(2, 6))]
     runs = {}
